@@ -24,9 +24,10 @@ type (
 	Error    = net.Error
 	NetAddr  = net.Addr
 	OpError  = net.OpError
-	TCPConn  = net.TCPConn
-	TCPAddr  = net.TCPAddr
-	IP       = net.IP
+	// TCPConn: in files whose "net" import is redirected here, *net.TCPConn is the virtual connection
+	TCPConn = VConn
+	TCPAddr = net.TCPAddr
+	IP      = net.IP
 )
 
 // Addr is a vnet address.
@@ -45,6 +46,7 @@ type half struct {
 
 // VConn is one end of a virtual connection.
 type VConn struct {
+	linger0  bool
 	id       int
 	in, out  *half
 	peer     *VConn
@@ -237,10 +239,27 @@ func (c *VConn) Write(b []byte) (int, error) {
 	return len(b), nil
 }
 
+// SetLinger mirrors (*net.TCPConn).SetLinger. With sec == 0 Close discards whatever this end wrote that the
+// peer has not read yet and the peer sees a reset (what the kernel does with the unsent part of the send
+// queue); how much was already delivered is not under the sender's control, so "nothing of the unread part"
+// is one of the possible outcomes and the one modelled.
+func (c *VConn) SetLinger(sec int) error {
+	c.linger0 = sec == 0
+	return nil
+}
+
+func (c *VConn) SetKeepAlive(bool) error                { return nil }
+func (c *VConn) SetKeepAlivePeriod(time.Duration) error { return nil }
+func (c *VConn) SetNoDelay(bool) error                  { return nil }
+
 func (c *VConn) Close() error {
 	sched.Op("net-close", c)
 	if c.closed {
 		return opErr("close", c, errClosed)
+	}
+	if c.linger0 && len(c.out.buf) > 0 {
+		c.out.buf = nil
+		c.out.reset = true
 	}
 	c.closed = true
 	c.out.wclosed = true
